@@ -4,11 +4,11 @@ from . import buildm as B
 from . import c18 as S18
 
 CLAIM = dict(
-    text="Coq theorem C19_warm about the thread semantics of the Build model (Model/BuildM.v: a pool of thread-local positions, run_schedule over any list of thread ids, one dictionary operation / source-line boundary per step): once the function is built and the first-rank entries of a set K of keys are present (their resolutions have completed -- decidable predicate warm), ANY schedule over ANY number of threads calling with keys in K leaves the shared state untouched and puts every thread exactly where it would be running alone, hence returns the sequential results (induction over the schedule; invariant: such threads only read). The full statement (all states, all schedules) is REFUTED with explicit schedules: KF-21 (two first callers: the second enters through the swapped entry point over an empty table -> 'no method'; or is already in the trampoline, builds a second table into which the first registers its remaining methods -> permanent spurious ambiguity) and KF-20's window observed by another thread (call_next 'no method'). Tie to /repo on every run: a cooperative scheduler (sys.settrace in each thread + per-thread semaphores, every executed library line a scheduling point) replays the witness schedules and random schedules with <= 3 pre-emptions placed at source-anchored markers on the real code with 2 (sampled: 3) threads -- thread results and later probes must equal the extracted model's for the same schedule; random line-level schedules must land in the model's reachable set (exhaustive enumeration with the same pre-emption bound); randomised OS-level runs (switch interval 1 microsecond). The oracle (each call returns what it returns alone, probes afterwards equal a fresh function) is evaluated on the implementation alone; failures must lie in KF-21 / KF-20's scenario classes and be predicted by the model.",
+    text="Coq theorems about the thread semantics of the Build model (Model/BuildM.v: a pool of thread-local positions, run_schedule over any list of thread ids, one dictionary operation / source-line boundary per step). C19_built: once the function has been built by a completed call, ANY schedule over ANY number of threads calling with ANY keys (racing cache misses for equal and different keys, racing call_next chains, warm keys) returns the outcomes over the complete table and leaves a state in which every later probe does too (every step of a call keeps the table consistent -- resolve writes the first-rank entry last since the repair of KF-20, /repo 7cfed94 -- and each thread's invariant is stable under the other threads' steps; induction over the schedule). C19_warm: on the decidable domain warm (built, first-rank entries of the keys present), for arbitrary parameters, any schedule leaves the shared state untouched and every thread exactly where it would be alone. The full statement is REFUTED for racing FIRST calls with explicit schedules (KF-21: the second caller enters through the swapped entry point over an empty table -> 'no method'; or is already in the trampoline, builds a second table into which the first registers its remaining methods -> permanent spurious ambiguity). Tie to /repo on every run: a cooperative scheduler (sys.settrace in each thread + per-thread semaphores, every executed library line a scheduling point) replays the witness schedules and random schedules with <= 3 pre-emptions placed at source-anchored markers on the real code with 2 (sampled: 3) threads -- thread results and later probes must equal the extracted model's for the same schedule; random line-level schedules must land in the model's reachable set (exhaustive enumeration with the same pre-emption bound); randomised OS-level runs (switch interval 1 microsecond). The oracle (each call returns what it returns alone, probes afterwards equal a fresh function) is evaluated on the implementation alone; a failure on a built function is a violation, a failure while racing the first build must lie in KF-21's class.",
     note="Partial: the model cannot exhibit interpreter-level atomicity inside one source line: pre-emption inside a line is assumed equivalent to pre-emption at one of its boundaries, each dictionary operation atomic (GIL), and the model's steps are coarser than lines in four places: the computation of the candidate ranks (mro, with its iteration over the shared set of registered types and its per-position caches) is one step, argument analysis (the shared ArgumentAnalyzer) is one step, the five-line swap of the entry point's code/defaults/globals is one step, MultiTypeMap.register is one step. Line-level and OS-level schedules that pre-empt INSIDE such a step while the first build is racing produce further failures of the same defect (observed: 'Set changed size during iteration', an entry point generated from a half-filled analyzer, a permanently stale per-position cache); they are attributed to KF-21 by the scenario class alone and counted separately in the evidence (first_build_race_failures_finer_than_model_steps); everywhere else (marker-anchored schedules, built functions, warm keys) the model must predict the outcome exactly. Dependent ranks, optional parameters, racing register/unregister are outside the harness. Trusted: Coq kernel, extraction, driver, the model (validated by the schedule replays), CPython's tracing and threading. No axioms.",
     technique="Coq proof (invariant stable under other threads' steps, induction over the schedule; refutations by vm_compute on explicit schedules) + deterministic schedule replay on the real code (trace-function cooperative scheduler) + OS-level stress", design="6 C19")
 
-THEOREMS = ["C19_warm", "C19_warm_results", "C19_refuted", "C19_refuted_build", "C19_refuted_chain"]
+THEOREMS = ["C19_warm", "C19_warm_results", "C19_built", "C19_chain_window_safe", "C19_refuted", "C19_refuted_build"]
 ASSUMPTIONS = ["pre-emption inside a source line is equivalent to pre-emption at one of its boundaries; dictionary operations are atomic; the rank computation of one resolution is one step",
                "rank data sent to the model is validated per scenario against MultiTypeMap.mro"]
 TRUSTED_EXTRA = ["the cooperative scheduler (vlib/props/buildm.py Sched): sys.settrace per thread, per-thread semaphores, source-text anchored markers as pre-emption points"]
@@ -69,14 +69,7 @@ def scenario_class(case):
     scn = case["scn"]
     if not any(o[0] == "call" for o in case["setup"]):
         return "KF-21"
-    resolved = {o[1] for o in case["setup"] if o[0] == "call"}
-    for o in case["tops"]:
-        if o[1] in resolved:
-            continue
-        ch = B.py_chain(scn, scn["defs0"], scn["keys"][o[1]])
-        if len(ch) >= 2 and len(ch[0]) == 1 and scn["methods"][ch[0][0]].get("body") == "next":
-            return "KF-20"
-    return None
+    return None   # built: C19_built speaks about every schedule (KF-20 is repaired) -- any failure is a violation
 
 
 def expected(case):
@@ -322,12 +315,15 @@ def replay(ctx, payload):
 
 
 def replay_finding(ctx, e):
+    """True = the witness schedules still violate the property on the real code (open: with the recorded outcomes, twice)"""
     wit = e["witness"].get("c19", e["witness"])
     ok = True
+    anyfail = False
     for w in wit["schedules"]:
         im = B.impl_segments(w["scn"], w["setup"], w["tops"], w["segments"], w["after"])
         im2 = B.impl_segments(w["scn"], w["setup"], w["tops"], w["segments"], w["after"])
         exp = expected(w)
-        ok = ok and im["threads"] == w["expect_threads"] and im["after"] == w["expect_after"] and im2["threads"] == im["threads"] \
-            and (im["threads"] != exp["threads"] or im["after"] != exp["after"])
-    return ok
+        failing = im["threads"] != exp["threads"] or im["after"] != exp["after"]
+        anyfail = anyfail or failing
+        ok = ok and im["threads"] == w["expect_threads"] and im["after"] == w["expect_after"] and im2["threads"] == im["threads"] and failing
+    return ok if e.get("status") == "open" else anyfail
